@@ -135,6 +135,17 @@ def check_case(case, with_dsl=True):
         vs.append(Violation("grid:" + dtkind, "timerange of the transpiled model %r, expected %r" % (tr[-3:], grid[-3:])))
         return info, vs
     try:
+        # a fresh instance of the transpiled model queried top-down (empty memo: t-dt chains down to the start)
+        fresh = type(model)()
+        for nm in names:
+            for i in (len(grid) - 1, len(grid) // 2):
+                got = fresh.equation(X.xkey(nm), grid[i])
+                info["comparisons"] += 1
+                if not SM.values_agree(got, ref[nm][i], scale, case["n"]):
+                    vs.append(Violation("xmile-topdown-vs-euler:%s" % dtkind,
+                                        "fresh transpiled model: %s queried directly at t=%r (index %d of %d, dt=%r start=%s) is %r, Euler reference %r; model %r"
+                                        % (nm, grid[i], i, case["n"], dts, case["start"], got, ref[nm][i], SM.sym_show(abstract))))
+                    raise StopIteration
         for nm in names:
             for i, t in enumerate(grid):
                 got = model.equation(X.xkey(nm), t)
